@@ -8,11 +8,12 @@ SEQ = lambda prof, q, t: {"quick": [("seq", {"profile": prof, "count": q})],
 
 PROPS = {
     "C01": {"suites": {"quick": SEQ("C01", 1500, 60000)["quick"] + [("seq", {"profile": "C20", "count": 600})], "thorough": SEQ("C01", 1500, 60000)["thorough"] + [("seq", {"profile": "C20", "count": 30000})]}, "design": "6/C01"},
-    "C02": {"suites": {"quick": SEQ("C02", 1500, 60000)["quick"] + [("sched", {"profile": "C02", "count": 80, "per_case": 60}), ("stress", {"count": 800})],
-                       "thorough": SEQ("C02", 1500, 60000)["thorough"] + [("sched", {"profile": "C02", "count": 1500, "per_case": 2000}), ("stress", {"count": 20000})]}, "design": "6/C02"},
+    "C02": {"suites": {"quick": SEQ("C02", 1500, 60000)["quick"] + [("sched", {"profile": "C02", "count": 80, "per_case": 60}), ("stress", {"count": 800}), ("policy", {"profile": "C02", "count": 400})],
+                       "thorough": SEQ("C02", 1500, 60000)["thorough"] + [("sched", {"profile": "C02", "count": 1500, "per_case": 2000}), ("stress", {"count": 20000}), ("policy", {"profile": "C02", "count": 20000})]}, "design": "6/C02", "projection": core.policy_projection()},
     "C05": {"suites": {"quick": SEQ("C05", 1500, 60000)["quick"] + [("sched", {"profile": "C05", "count": 80, "per_case": 60}), ("stress", {"count": 800})],
                        "thorough": SEQ("C05", 1500, 60000)["thorough"] + [("sched", {"profile": "C05", "count": 1500, "per_case": 2000}), ("stress", {"count": 20000})]}, "design": "6/C05"},
-    "C06": {"suites": SEQ("C06", 1500, 60000), "design": "6/C06"},
+    "C06": {"suites": {"quick": SEQ("C06", 1500, 60000)["quick"] + [("sched", {"profile": "C06", "count": 100, "per_case": 60})],
+                       "thorough": SEQ("C06", 1500, 60000)["thorough"] + [("sched", {"profile": "C06", "count": 1500, "per_case": 2000})]}, "design": "6/C06"},
     "C07": {"suites": SEQ("C07", 1500, 60000), "design": "6/C07"},
     "C08": {"suites": {"quick": SEQ("C08", 1500, 60000)["quick"] + [("stress", {"count": 1000})], "thorough": SEQ("C08", 1500, 60000)["thorough"] + [("stress", {"count": 20000})]}, "design": "6/C08"},
     "C11": {"suites": {"quick": SEQ("C11", 1500, 60000)["quick"] + [("conn", {"profile": "C11", "count": 20, "tier": "quick"})],
@@ -25,7 +26,8 @@ STREAM = lambda prof, q, t: {"quick": [("codec", {"profile": prof, "count": q, "
 PROPS.update({
     "C09": {"suites": STREAM("C09", 120, 1500), "design": "6/C09", "projection": core.framing_projection()},
     "C12": {"suites": STREAM("C12", 120, 1500), "design": "6/C12", "projection": core.framing_projection(with_dump=True)},
-    "C13": {"suites": STREAM("C13", 120, 1500), "design": "6/C13", "projection": core.framing_projection(with_dump=True)},
+    "C13": {"suites": {"quick": STREAM("C13", 120, 1500)["quick"] + [("config", {"tier": "quick"})], "thorough": STREAM("C13", 120, 1500)["thorough"] + [("config", {"tier": "thorough"})]},
+            "design": "6/C13", "projection": core.framing_projection(with_dump=True), "needs_memcrsd": True},
     "C18": {"suites": {"quick": STREAM("C18", 120, 1500)["quick"] + [("server", {"count": 16})], "thorough": STREAM("C18", 120, 1500)["thorough"] + [("server", {"count": 300})]},
             "design": "6/C18", "projection": core.framing_projection(with_dump=True)},
     "C10": {"suites": {"quick": STREAM("C10", 120, 1500)["quick"] + [("grid", {"count": 3000}), ("seq", {"profile": "C05", "count": 500}), ("seq", {"profile": "ALL", "count": 500})],
@@ -47,7 +49,7 @@ RULE_POLICY = ("policy: programs of 10-120 commands (stores, overwrites, appends
                "tape (the model validates every choice); accounted usage (hook), stored bytes and content are compared after every command.")
 
 PROPS.update({
-    "C17": {"suites": {"quick": [("server", {"count": 32})], "thorough": [("server", {"count": 600})]}, "design": "6/C17"},
+    "C17": {"suites": {"quick": [("server", {"count": 32}), ("config", {"tier": "quick"})], "thorough": [("server", {"count": 600}), ("config", {"tier": "thorough"})]}, "design": "6/C17", "needs_memcrsd": True},
 })
 
 RULE_SERVER = ("server: scripted connection life-cycles against a real MemcacheTcpServer (limits 1-4, idle timeout 1 s, many more connections than the limit): "
